@@ -20,9 +20,19 @@ package execenv
 
 // making the pre-run closures touches nothing
 //@ func LoadRepo
-//@ func LoadBackend
 //@ func LoadBackend$1$1
 //@   modifies nothing
+// lastLoader / lastCloser: the pre-run closure last made by LoadBackend or LoadBackendEnsureUser and the run wrapper
+// last made by CloseBackend (ghost records: a command constructor is held to pair them)
+//@ ghost var lastLoader any
+//@ ghost var lastCloser any
+//@ func LoadBackend
+//@ func LoadBackendEnsureUser
+//@   modifies lastLoader
+//@   defines [recorded] lastLoader == result
+//@ func CloseBackend
+//@   modifies lastCloser
+//@   defines [recorded] lastCloser == result
 
 // Watching the cache being opened: the only thing that makes it fail is an error reported by the cache itself -
 // every other event (the notice that a stale lock was cleaned included) is progress information (C19: a command
